@@ -76,7 +76,7 @@ def waiters_answered(r, F):
     def sink(f, s, idx, kind):
         if kind == "call" and s.callee and re.search(r"oneshot::Sender::<T>::send$", s.callee) and idx == 0:
             return "send"
-        if kind == "agg" and s.rv.j.get("adt") == STATE and s.rv.j.get("variant") == "Notify" and idx == "notifiers":
+        if kind == "agg" and s.rv.j.get("adt") == STATE and s.rv.j.get("variant") == "Notify":
             return "RawFetchState::Notify"
         if kind == "agg" and (s.rv.j.get("adt") or "").endswith("inflight::FetchOrTake") and s.rv.j.get("variant") == "Notifiers":
             return "FetchOrTake::Notifiers"
